@@ -185,12 +185,13 @@ UNITS = {
         "generate": lambda repo, d: translate_minipy.generate_shuffle(repo, os.path.join(d, "ShuffleGen.v")),
         "refuse": translate_minipy.Refuse,
         "generated": "ShuffleGen.v",
-        "stages": [["ShuffleRepr.v"], ["ShuffleGenProofs.v"], ["ShuffleKnotGenProofs.v"]],
+        "stages": [["ShuffleRepr.v"], ["ShuffleGenProofs.v"], ["ShuffleKnotGenProofs.v"], ["ShuffleMTGenProofs.v"]],
         "deps": ["Py.v", "Kmer.v", "Shuffle.v", "Spec.v", "MiniPyD.v", "MiniPyDEnc.v", "Proofs/MiniPyDLemmas.v", "Proofs/ShuffleProofs.v",
-                 "Proofs/KmerProofs.v"],
+                 "Proofs/KmerProofs.v", "MT19937.v", "Proofs/ShuffleMTProofs.v"],
         "theorems": {"ShuffleGenProofs.v": ["create_random_shuffles_gen", "create_random_shuffles_gen_raise"],
                      "ShuffleKnotGenProofs.v": ["py9_create_random_shuffles", "C18_table_source",
-                                                "C18_seed_and_verbose_irrelevant_source", "C18_bad_seed_source"]},
+                                                "C18_seed_and_verbose_irrelevant_source", "C18_bad_seed_source"],
+                     "ShuffleMTGenProofs.v": ["C18_numpy_table_source", "C18_reproducible_source"]},
     },
     "biofilter": {
         "functions": translate_minipy.BIOFILTER_FUNCS,
@@ -1249,12 +1250,22 @@ def semantics_check_shuffle(work, repo, seed=0, n=60):
             rng.shuffle(q)
             perms.append(q)
         cases.append({"k": k, "seed": sd, "verbose": rng.random() < 0.3, "perms": perms})
-    lines = ["From DSW Require Import MiniPyD MiniPyDEnc.", "From DSWGen Require Import ShuffleGen.", "Open Scope Z_scope.",
+    # ... and with NOTHING replaced on the CPython side: the real numpy.random against the model of the generator (coq/MT19937.v)
+    # feeding the interpreter -- the regenerated program plus the generator model must reproduce the library's table
+    for i in range(14):
+        cases.append({"k": [0, 1, 1, 2, 2, 3, 3][i % 7], "seed": [0, 1, 2021, 2 ** 32 - 1][i] if i < 4 else rng.randrange(2 ** 32),
+                      "verbose": False, "real": True})
+    lines = ["From DSW Require Import MiniPyD MiniPyDEnc MT19937.", "From DSWGen Require Import ShuffleGen.", "Open Scope Z_scope.",
              "Definition ext (f : string) (args : list val) : res val :=",
              '  if String.eqb f "__seed__" then match args with',
              "    | [VNone] => Ret VNone | [VInt z] => if (0 <=? z) && (z <? 2 ^ 32) then Ret VNone else Exn ValueError | _ => Stuck end",
              "  else Stuck."]
     for c in cases:
+        if c.get("real"):
+            lines.append('Eval vm_compute in enc_res (match mt_rows %d (%d) with Some rows => run_fun ext 50 create_random_shuffles_def '
+                         '[VInt (%d); VInt (%d); VBool false; VList (map (fun r => VList (map VInt r)) rows)] | None => Stuck end).'
+                         % (4 ** c["k"], c["seed"], c["k"], c["seed"]))
+            continue
         stream = "(VList [%s])" % "; ".join("(VList [%s])" % "; ".join("(VInt (%d))" % x for x in q) for q in c["perms"])
         lines.append('Eval vm_compute in enc_res (run_fun ext 50 create_random_shuffles_def [VInt (%d); %s; VBool %s; %s]).'
                      % (c["k"], "VNone" if c["seed"] is None else "(VInt (%d))" % c["seed"], "true" if c["verbose"] else "false", stream))
@@ -1281,8 +1292,9 @@ def semantics_check_shuffle(work, repo, seed=0, n=60):
             "        p = self.perms.pop(0)\n"
             "        a[:] = a[p]\n"
             "out = []\n"
+            "REAL = S.random\n"
             "for c in json.load(sys.stdin):\n"
-            "    S.random = Stream(c['perms'])\n"
+            "    S.random = REAL if c.get('real') else Stream(c['perms'])\n"
             "    try:\n"
             "        with contextlib.redirect_stdout(io.StringIO()):\n"
             "            r = dsw.create_random_shuffles(c['k'], c['seed'], c['verbose'])\n"
@@ -1307,6 +1319,7 @@ def semantics_check_shuffle(work, repo, seed=0, n=60):
             continue
         res["compared"] += 1
         res["raised"] += int(w[:1] == [1])
+        res["real_generator_cases"] = res.get("real_generator_cases", 0) + int(bool(c.get("real")))
         if g != w and len(res["disagreements"]) < 5:
             res["disagreements"].append({"function": "create_random_shuffles", "args": {k: v for k, v in c.items() if k != "perms"},
                                          "minipy": g[:40], "cpython": w[:40]})
